@@ -859,6 +859,10 @@ class C09(Prop):
           'everything; the same on typed trees (500 histories) whose objects have schema-bound nested '
           'Dict / object fields with defaults and required fields, so that sym_nondefault() is a snapshot memoised at '
           'the object only -- reads (sym_nondefault, sym_missing) are compared with the model on all of them. '
+          '300 histories of rebinds that delete List items / Dict keys (path -> MISSING_VALUE), silent and notified, on '
+          'lists with callbacks; 400 histories with re-entrant handlers (subscribing nodes that answer every event '
+          'with a call of their own on themselves / a descendant / an ancestor, nesting bound 1-3; log entries are '
+          'tagged with the call they belong to and every call is judged on its own). '
           'Object classes form the hierarchy Plain -> Mid -> Sub (only Sub overrides _on_change) and are created '
           'afresh for every case. A second, oracle-only stream inserts partial objects, pure-symbolic and non-deterministic values. '
           'Non-trivial: some node on the path from the root to a written location subscribes; distinct by JSON.')
@@ -870,7 +874,10 @@ class C09(Prop):
       'two memos per node (nondefault, missing) against the value specs of the harness classes (fields with '
       'defaults incl. container / object defaults, required fields, schema-bound nested Dicts); the memo of a '
       'schema-bound node is modelled as a flattened snapshot; _sym_puresymbolic / is_deterministic are oracle-only; '
-      'writes whose value a spec would transform or reject are not generated (C03); notify_parents=False, handlers that mutate during notification, _on_parent_change / '
+      'writes whose value a spec would transform or reject are not generated (C03); a nested call issued by a handler '
+      'is modelled as running on the tree with the outer call completely applied (memos reset, placeholders dropped): '
+      'handlers that react are not combined with deleting rebinds; nested calls put atoms at leaf locations; '
+      'notify_parents=False, _on_parent_change / '
       '_on_path_change and value specs are outside the model; a shrinking slice assignment inside '
       'notify_on_change(False) leaves MISSING_VALUE placeholders (known finding C02-F03) and is neither generated '
       'nor modelled',
